@@ -1,7 +1,7 @@
 SPECIFICATION Spec
 CONSTANTS
   Writers = {"w1", "w2"}
-  Plan <- PlanFE
+  Plan <- PlanFF
   History <- Hist2
   B = 3
   M = 2
@@ -17,8 +17,8 @@ CONSTANTS
   CommitFirst = TRUE
   LimitFix = TRUE
   HbStops = TRUE
-  Ahead = 0
+  Ahead = 6
   Gen = FALSE
 VIEW mcview
-INVARIANT C02_PollerNoMiss C02_BroadcastOrder C03_Increasing C06_Scope StartOK C03_ThresholdOnce C03_ThresholdPlaced C11_LimitNotExceeded C11_LimitCloses C11_TailNoHistory C11_PulseOnlyIfAsked C11_NoSilentGap C11_ClosedIsFinal C09_EphemeralNotStored LostOnlyByKnown 
+INVARIANT C02_BroadcastOrder C03_Increasing C06_Scope StartOK C03_ThresholdOnce C03_ThresholdPlaced C11_LimitNotExceeded C11_LimitCloses C11_TailNoHistory C11_PulseOnlyIfAsked C11_NoSilentGap C11_ClosedIsFinal C09_EphemeralNotStored LostOnlyByKnown 
 CHECK_DEADLOCK FALSE
